@@ -20,7 +20,7 @@ ASSUMPTIONS = [
     "re-encoding must keep every key and value of the payload; extra keys are tolerated only when null / empty",
     "with a discriminator the decoded class is identified by its class name",
 ]
-BOUND = {"quick": "576 plain unions of <=3 variants over the 9-variant menu + 60 over composed / formatted-string variants + ~300 discriminated unions (modes incl. bare-name and enum-wider-than-mapping, nullable, 9 property spellings) + 12 reversed-pair holders, 3 positions, <=2 payloads per variant", "thorough": "+ 4-variant unions"}
+BOUND = {"quick": "576 plain unions of <=3 variants over the 9-variant menu + 60 over composed / formatted-string variants + 54 over variants with optional container properties + ~300 discriminated unions (modes incl. bare-name and enum-wider-than-mapping, nullable, 9 property spellings) + 12 reversed-pair holders, 5 positions (alias, field, inline list item, named array schema as a field and decoded directly), <=2 payloads per variant", "thorough": "+ 4-variant unions"}
 CHUNK = 1
 PACK = 8
 
@@ -45,8 +45,14 @@ VARIANTS = {
     # every required key is nullable: the variant is still told apart by the PRESENCE of the key
     "VNullReq": ({"type": "object", "required": ["assignee"], "properties": {"assignee": {"type": "string", "nullable": True}, "eta": {"type": "string"}}},
                  [{"assignee": None}, {"assignee": "x", "eta": "e"}]),
+    # optional properties that are containers (emitted with default_factory): leaving them out is as conforming as leaving out a scalar
+    "VArrOpt": ({"type": "object", "required": ["t"], "properties": {"t": {"type": "string"}, "tags": {"type": "array", "items": {"type": "string"}}}},
+                [{"t": "x"}, {"t": "x", "tags": ["p", "q"]}]),
+    "VMapOpt": ({"type": "object", "required": ["m"], "properties": {"m": {"type": "integer"}, "labels": {"type": "object", "additionalProperties": {"type": "string"}},
+                                                                      "items": {"type": "array", "items": {"type": "integer"}}}},
+                [{"m": 1}, {"m": 1, "labels": {"k": "v"}}, {"m": 2, "items": [1, 2]}]),
 }
-OBJECTS = ["VA", "VAB", "VB", "VOpt", "VAC", "VTiger", "VBear", "VNullReq"]
+OBJECTS = ["VA", "VAB", "VB", "VOpt", "VAC", "VTiger", "VBear", "VNullReq", "VArrOpt", "VMapOpt"]
 BASE_MENU = ["VA", "VAB", "VB", "VOpt", "VAC", "str", "int", "arr", "map"]   # the full permutation space runs over these
 EXTRA_SCHEMAS = {"AnimalBase": {"type": "object", "properties": {"name": {"type": "string"}}},
                  "ClawTraits": {"type": "object", "properties": {"claws": {"type": "integer"}}}}
@@ -102,6 +108,12 @@ def unions(tier):
     for sel in (["VA", "VB"], ["VB", "VA"], ["VAB", "VOpt"], ["VOpt", "VAB"], ["VAC", "VB", "VA"]):
         for disc in ("mapping-bare", "mapping-enum"):
             out.append({"variants": list(sel), "disc": disc, "nullable": False, "kw": "oneOf"})
+    for group in (["VArrOpt", "VMapOpt", "VB"], ["VArrOpt", "VOpt", "VA"], ["VMapOpt", "VAB", "VOpt"]):
+        for k in (2, 3):
+            for sel in itertools.permutations(group, k):
+                out.append({"variants": list(sel), "disc": "none", "nullable": False, "kw": "oneOf"})
+                if k == 2:
+                    out.append({"variants": list(sel), "disc": "none", "nullable": False, "kw": "anyOf"})
     return out
 
 
@@ -152,7 +164,9 @@ def build_doc(us):
             s["discriminator"] = {"propertyName": u.get("prop", "kind")}
         un = u.get("uname") or f"U{i}"
         schemas[un] = s
-        schemas[f"Holder{i}"] = {"type": "object", "properties": {"u": R(un), "us": {"type": "array", "items": R(un)}}}
+        # the union also behind a NAMED array schema (a component of its own), used as a property and decoded directly
+        schemas[f"{un}List"] = {"type": "array", "items": R(un)}
+        schemas[f"Holder{i}"] = {"type": "object", "properties": {"u": R(un), "us": {"type": "array", "items": R(un)}, "named": R(f"{un}List")}}
         if u.get("rev"):
             schemas[f"{un}R"] = {u["kw"]: list(reversed(members))}
             schemas[f"PairHolder{i}"] = {"type": "object", "required": ["first", "second"], "properties": {"first": R(un), "second": R(f"{un}R")}}
@@ -216,6 +230,8 @@ def run_pack(us, stats):
             if u.get("rev"):
                 jobs.append({"id": [i, "pair"], "class": f"PairHolder{i}", "docs": [{"first": p, "second": p} for _, p, _ in ps]})
             jobs.append({"id": [i, "item"], "class": f"Holder{i}", "docs": [{"us": [p]} for _, p, _ in ps] + [{"us": [p for _, p, e in ps if not e.get("error")]}]})
+            jobs.append({"id": [i, "named-list"], "class": f"Holder{i}", "docs": [{"named": [p]} for _, p, _ in ps]})
+            jobs.append({"id": [i, "list-alias"], "class": f"U{i}List", "docs": [[p] for _, p, _ in ps]})
         res = sandbox.zygote_job({"roots": [root], "allow": ["cli"], "driver": "roundtrip",
                                   "args": {"package": "cli", "core": "cli.core", "jobs": jobs}}, timeout_s=100)
     if "_crash" in res:
@@ -253,7 +269,7 @@ def run_case(case):
         if r["status"] != "ok":
             continue
         ps = payloads(u, r["index"])
-        for pos in ("alias", "field", "item") + (("pair",) if u.get("rev") else ()):
+        for pos in ("alias", "field", "item", "named-list", "list-alias") + (("pair",) if u.get("rev") else ()):
             rec = r["recs"].get(pos)
             if rec is None or rec.get("missing"):
                 sig = f"C14|{pos}|union not exported by the models package"
@@ -289,7 +305,7 @@ def run_case(case):
                     add(f"conforming payload rejected [{shape(u)}]: {err['type']}: {m[:70]}", err["msg"][:200])
                     continue
                 back = d["back"]
-                wrap = {"alias": lambda x: x, "field": lambda x: {"u": x}, "item": lambda x: {"us": [x]}, "pair": lambda x: {"first": x, "second": x}}[pos]
+                wrap = {"alias": lambda x: x, "field": lambda x: {"u": x}, "item": lambda x: {"us": [x]}, "named-list": lambda x: {"named": [x]}, "list-alias": lambda x: [x], "pair": lambda x: {"first": x, "second": x}}[pos]
                 want = wrap(p)
                 if pos == "pair":
                     # each property is judged on its own (it follows its own variant order)
